@@ -94,7 +94,8 @@ pub(super) fn normalize_frequencies(frequencies: &Frequencies) -> Frequencies {
             continue;
         }
 
-        *g = (f * SCALING_FACTOR / sum).max(1);
+        // SAFETY: the quotient is <= `SCALING_FACTOR`.
+        *g = ((u64::from(f) * u64::from(SCALING_FACTOR) / u64::from(sum)) as u32).max(1);
 
         normalized_sum += *g;
     }
